@@ -34,6 +34,12 @@ def run(tier: str, seed: int) -> CompResult:
         def send(self, obj: Any) -> None:
             self.sent.append(obj)
 
+        def isclosed(self) -> bool:      # the rest of execnet's channel interface, as a refactoring of the code may use it
+            return False
+
+        def close(self) -> None:
+            pass
+
         def _getremoteerror(self) -> Any:
             # nothing / a lost connection / an exception of the worker's entry code: the end marker means the worker is gone
             return rng.choice([None, None, EOFError("connection lost"), RuntimeError("remote entry code raised")])
@@ -63,6 +69,18 @@ def run(tier: str, seed: int) -> CompResult:
         produced = []
         for i in range(n):
             r = rng.random()
+            if rng.random() < 0.12:
+                # the main thread tells this worker to shut down between two messages (triggershutdown, check_schedule)
+                sent_before = len(node.channel.sent)
+                try:
+                    node.shutdown()
+                except Exception as e:  # noqa: BLE001
+                    raised = e
+                    break
+                wrote = any(c[0] == "shutdown" for c in node.channel.sent[sent_before:])
+                seq_l.append("recv-shut")
+                seq_i.append(f"down={b(node._down)} sent={b(node._shutdown_sent)} | - | wrote={b(wrote)}")
+                res.hit("shut")
             if r < 0.62:
                 kind = rng.choice(KINDS)
                 if kind == "collectionstart":
@@ -131,6 +149,10 @@ def run(tier: str, seed: int) -> CompResult:
             res.violations.append(Violation("C17", "ctl.receiver", f"process_from_remote raised {type(raised).__name__}: {raised}",
                                             "receiver-raised", list(seq_l), {}))
         # monitors on the whole stream
+        nshut = sum(1 for c in node.channel.sent if c[0] == "shutdown")
+        if nshut > 1:
+            res.violations.append(Violation("C16", "ctl.receiver", f"{nshut} shutdown signals were written to one worker (main thread + receiver thread's error handler)",
+                                            "shutdown-sent-twice", list(seq_l), {}))
         evs = [ev for ev, _ in posted]
         if evs.count("errordown") + evs.count("workerfinished") > 1:
             res.violations.append(Violation("C17", "ctl.receiver", f"a worker was reported down {evs.count('errordown') + evs.count('workerfinished')} times: {evs}",
